@@ -21,6 +21,10 @@ CHECKS = {
    technique="deterministic simulation: seeded search over frame sequences, endings (FIN / RESET at a drawn offset / open), chunkings and task interleavings against real h3 server and client, judged by an RFC 9114 §4.1 reference state machine",
    text="Real h3 server and client (connection driver, request stream state machine, FrameStream, QPACK) over SimQuic receive a scripted peer's frame sequence (valid sequence plus at most one deviation over the full alphabet incl. DATA(0), unknown frames, control-only frames, PUSH_PROMISE to a server, HTTP/2 types) ending in FIN, RESET at a drawn byte offset or left open, under drawn chunkings, FIN timing, task order and spurious polls; the application follows the documented call pattern and its complete history (message, body bytes, end-of-body, trailers, connection outcome, close code) is compared with the reference state machine. Sampling over seeds, not enumeration.",
    note="Trusted: the reference state machine in checks/c03.rs (walk), refs::frames/qpack/varint, SimQuic, simexec. Payloads of generated frames are well-formed so that one RFC rule applies. Client-side FIN/PUSH_PROMISE before a response is unconstrained; under RESET only prefix-consistency is required."),
+ "C04": dict(level="exploration", engine="E1", design_ref="DESIGN.md §5 C04",
+   technique="deterministic simulation: seeded search over scripted peer behaviours on unidirectional streams (stream types, control frame sequences, FIN/RESET positions), arrival orders, chunkings and stream-credit/back-pressure faults on the endpoint's own outgoing streams; admissible-set reference model plus effect checks (applied SETTINGS, GOAWAY taking effect) and a two-chunking metamorphic comparison",
+   text="Real h3 server and client drivers over SimQuic face a scripted peer that opens 1-5 unidirectional streams of every kind (type varints in all forms, closed/reset before the type completes) and sends a control frame sequence with at most one deviation, ended by FIN/RESET at a drawn position, while the simulator withholds or delays the endpoint's own stream credit (so that the optional 4th stream pends for ever or for a while) and pends/partially accepts its writes. Oracle: the connection outcome (driver result and effective close code at exact quiescence) is in the admissible set computed by a reference model of RFC 9114 §6.2/§7.2.4/§5.2 (none if the peer did nothing wrong; a driver that only notices when polled again later counts as parked), applied SETTINGS are visible, a valid GOAWAY takes effect (accept() ends / new requests refused), and the outcome does not depend on chunking. Sampling, not proof.",
+   note="Trusted: reference model in checks/c04.rs, refs codecs, SimQuic, simexec. Unconstrained by scoping: unknown frame before SETTINGS, CANCEL_PUSH to a client, push streams, a RESET control stream; optional codes where a RESET may overtake a stream type or two RFC rules apply to one frame; server accept() may end after a valid GOAWAY before later frames are read."),
  "C14": dict(level="exploration", engine="E1", design_ref="DESIGN.md §5 C14",
    technique="deterministic simulation: seeded search over generated API-call programs, builder configurations and per-call write-acceptance/pend patterns of the transport; history check of the complete per-stream byte logs by a reference RFC 9114 parser",
    text="Generated programs (1-4 exchanges in both roles, empty and multi-chunk buffers, trailers, streams abandoned mid-body, split halves, server shutdown(n) and client shutdown at drawn moments, drawn builder options) run on real h3 endpoints over SimQuic, which accepts writes down to one byte at a time, splits frame headers, pends and withholds stream credit. Afterwards every byte either endpoint wrote on every stream is parsed with the reference codecs: legal uni stream types, SETTINGS first and only allowed frames on the control stream (never finished/reset), only complete HEADERS/DATA/reserved frames in legal order on request streams, length fields consistent, reserved identifiers of the 0x1f*N+0x21 form, no HTTP/2 types or settings, GOAWAY ids non-increasing, DATA payloads concatenating to exactly what send_data was given, HEADERS decoding to what was submitted, and no misuse of the transport traits (overlapping send_data). Sampling, not proof.",
